@@ -52,6 +52,10 @@ use crate::Verbosity;
 /// Given a list of m columns of n bits, return a list
 /// of bit vectors (size m) generating the kernel of the matrix.
 pub fn kernel_gauss(columns: Vec<BitVec>) -> Vec<BitVec> {
+    if columns.is_empty() {
+        // No columns: the kernel is trivial.
+        return vec![];
+    }
     let size = columns[0].len();
     let ncols = columns.len();
     assert!(columns.iter().all(|v| v.len() == size));
